@@ -10,5 +10,5 @@ fi
 git -C /repo reset -q
 ./check $cid --tier $tier 2>&1 | tail -${4:-6}
 echo "exit=${PIPESTATUS[0]}"
-git -C /repo checkout -- .
+git -C /repo checkout -- . ; find /repo -name "*.orig" -o -name "*.rej" | xargs -r rm -f
 git -C /repo status --short | head -3
